@@ -643,13 +643,13 @@ structure H5File where
   keys : List Str
   /-- order in which `list({...})` enumerates the variable names of this file -/
   hashOrder : List Str
-deriving Repr
+deriving DecidableEq, Repr
 
 structure RestartDir where
   nbr : Nat
   /-- directory entries in `os.listdir` order -/
   files : List H5File
-deriving Repr
+deriving DecidableEq, Repr
 
 structure Tables where
   knownGroups : List (Str × List Str)
